@@ -89,7 +89,9 @@ func c09Storable(status int, cc []string, hasExpires bool) bool {
 // header that is stateful (every name of the draft's list, EVERY letter's case symbolic) or harmless; a response
 // header that is uncached/stateful (every name of the draft's 19, every letter's case symbolic) or harmless;
 // b3 cacheability: Cache-Control from 12 directive sets x Expires present/absent x status from the 11 cacheable-by-default codes + {201,302,303,418,500,306,599} (thorough: every status 100..599 against the IANA registry);
-// Content-Type present/absent; integrity parameter right/wrong; signature bytes intact/flipped; payload intact/flipped.
+// Content-Type present/absent; integrity parameter right/wrong; signature bytes intact/flipped; payload intact/flipped;
+// SEVERAL signatures in the header: [invalid, genuine], [genuine, invalid] (accepted), [invalid, invalid'] (rejected), the
+// invalid one being a flipped signature, a cross-origin validity-url or an expired window.
 func VH_C09_Policy() {
 	vh.MustReach("accept", "reject")
 	ver := sxVersions[vh.Choose(3)]
@@ -110,7 +112,8 @@ func VH_C09_Policy() {
 	sameOrigin := true
 	statefulReq, uncachedResp := false, false
 
-	switch g := vh.Choose(10); g {
+	multi := 0 // group 10: several signatures in the header
+	switch g := vh.Choose(11); g {
 	case 0:
 		switch vh.Choose(4) {
 		case 1:
@@ -180,6 +183,8 @@ func VH_C09_Policy() {
 		sigOK = false
 	case 9:
 		payloadOK = false
+	case 10:
+		multi = 1 + vh.Choose(3) // 1: [bad, good]   2: [good, bad]   3: [bad, bad']
 	}
 
 	payload := vh.Bytes("payload", 2)
@@ -204,6 +209,37 @@ func VH_C09_Policy() {
 		mask := vh.Byte("pmask")
 		vh.Assume(mask != 0)
 		e.Payload[len(e.Payload)-1] ^= mask
+	}
+	if multi > 0 {
+		// "run the algorithm for each signature, stopping at the first one that returns valid": an invalid
+		// signature before or after the genuine one must not spoil it, and two invalid ones do not add up
+		good := e.SignatureHeaderValue
+		mkBad := func(kind int) string {
+			e.SignatureHeaderValue = good
+			switch kind {
+			case 0:
+				sxEditSignature(e, func(p structuredheader.Parameters) {
+					c := append([]byte{}, p["sig"].([]byte)...)
+					c[0] ^= 0x01
+					p["sig"] = c
+				})
+			case 1:
+				sxEditSignature(e, func(p structuredheader.Parameters) { p["validity-url"] = "https://example.com/validity" })
+			case 2:
+				sxEditSignature(e, func(p structuredheader.Parameters) { p["expires"] = p["date"].(int64) - 1 })
+			}
+			return e.SignatureHeaderValue
+		}
+		bad := mkBad(vh.Choose(3))
+		switch multi {
+		case 1:
+			e.SignatureHeaderValue = bad + ", " + good
+		case 2:
+			e.SignatureHeaderValue = good + "," + bad
+		case 3:
+			e.SignatureHeaderValue = bad + "," + mkBad(1)
+			sigOK = false
+		}
 	}
 	fetch := func(u string) ([]byte, error) { return certBytes, nil }
 	out, ok := e.Verify(time.Unix(t, 0), fetch, sxLogger())
